@@ -251,6 +251,8 @@ def run_impl(ctx, cases, tag, procs=6):
 def coq_steps(case, resps):
     steps = []
     for r, resp in zip(case["reqs"], resps):
+        if resp["status"] < 0 or resp.get("status2") == -1:
+            break                  # the request (or the listing after it) never returned: judged by the oracle, nothing to compare
         cut = r["path"] == "/reset" and resp["status"] >= 500
         # a failing reset stops at a proxy chosen by Go's map iteration order: its status is compared, the rest of the sequence is not
         after = canon_payload(resp["proxies"])
